@@ -40,7 +40,7 @@ def flat(t, tag):
     return [t]
 
 
-def sexp(t, rng):
+def sexp(t, rng, splice=0.4):
     k = t[0]
     pick = lambda *a: a[rng.randrange(len(a))]
     if k == "lit":
@@ -66,17 +66,17 @@ def sexp(t, rng):
         parts = flat(t, "seq") if rng.random() < 0.7 else [t[1], t[2]]
         if all(p[0] == "lit" for p in parts) and rng.random() < 0.5:
             return str_lit([p[1] for p in parts])
-        return "(%s %s)" % (pick(":", "seq"), " ".join(sexp(p, rng) for p in parts))
+        return "(%s %s)" % (pick(":", "seq"), " ".join(sexp(p, rng, splice) for p in parts))
     if k == "or":
         parts = flat(t, "or") if rng.random() < 0.7 else [t[1], t[2]]
-        return "(%s %s)" % (pick("or", "or", "|\\||"), " ".join(sexp(p, rng) for p in parts))
+        return "(%s %s)" % (pick("or", "or", "|\\||"), " ".join(sexp(p, rng, splice) for p in parts))
     if k in ("star", "plus", "opt", "sub", "nocase", "rep"):
         body = t[-1]
         # (op a b) is (op (: a b)): splice a sequence body sometimes
-        if body[0] == "seq" and rng.random() < 0.4:
-            b = " ".join(sexp(p, rng) for p in flat(body, "seq"))
+        if body[0] == "seq" and rng.random() < splice:
+            b = " ".join(sexp(p, rng, splice) for p in flat(body, "seq"))
         else:
-            b = sexp(body, rng)
+            b = sexp(body, rng, splice)
         if k == "star":
             return "(%s %s)" % (pick("*", "zero-or-more"), b)
         if k == "plus":
@@ -224,18 +224,21 @@ NORESULT = {"err": 2, "m": 0, "mf": 0, "mm": [], "sf": 0, "ss": []}
 
 
 def run_impl(build, sc, label, cases, seed, timeout=600):
-    """cases: list of (sre, subject).  One chibi process; returns one Call event per case (same order).
-       A case without an answer (crash, abort, timeout) is recorded as err=2 (no result)."""
-    rng = __import__("random").Random(seed)
+    """cases: list of (sre, subject) or (sre, subject, v) where v is a printing variant (int) or the SRE datum text
+       itself (replays).  One chibi process; returns one Call event per case (same order).  The datum printed for
+       an SRE depends only on (seed, variant, SRE).  A case without an answer (crash, abort, timeout) is recorded
+       as err=2 (no result)."""
+    Random = __import__("random").Random
     groups = {}
-    for i, (t, s) in enumerate(cases):
-        groups.setdefault(json.dumps(t), []).append(i)
+    for i, c in enumerate(cases):
+        v = c[2] if len(c) > 2 else 0
+        groups.setdefault((json.dumps(c[0]), v), []).append(i)
     inp = sc.file("cases_%s.scm" % label)
     texts = {}
     with open(inp, "w") as f:
         for key, idxs in groups.items():
             t = cases[idxs[0]][0]
-            texts[key] = sexp(t, rng)
+            texts[key] = key[1] if isinstance(key[1], str) else sexp(t, Random("%d:%d:%s" % (seed, key[1], key[0])), 1.0 if key[1] == 1 else 0.4)   # variant 1: always (op a b)
             f.write("(%s" % texts[key])
             for i in idxs:
                 f.write(" (%d . %s)" % (i, str_lit(cases[i][1])))
@@ -257,11 +260,11 @@ def run_impl(build, sc, label, cases, seed, timeout=600):
     if not res:
         raise Broken("regexdrv produced nothing on %s: rc=%s %s" % (label, rc, err.decode(errors="replace")[-1500:]))
     evs = []
-    for i, (t, s) in enumerate(cases):
+    for i, c in enumerate(cases):
         o = res.get(i, NORESULT)
-        ev = {"e": "Call", "id": i, "sre": t, "s": s}
+        ev = {"e": "Call", "id": i, "sre": c[0], "s": c[1]}
         ev.update({k: o[k] for k in ("err", "m", "mf", "mm", "sf", "ss")})
-        ev["datum"] = texts[json.dumps(t)]          # not read by the spec: the SRE as chibi saw it, for reports
+        ev["datum"] = texts[(json.dumps(c[0]), c[2] if len(c) > 2 else 0)]   # not read by the spec: the SRE as chibi saw it
         evs.append(ev)
     return evs
 
@@ -322,6 +325,7 @@ def execute(build, sc, label, cases, seed, jobs_impl=12, jobs_tlc=8, per=2500, p
 # rejected results: shrink with TLC in the loop, structural key
 # --------------------------------------------------------------------------
 ATOMS = ("lit", "set", "nset", "range", "any", "eps", "empty", "bol", "eol")
+PRINTINGS = 4
 EPS = ["eps"]
 
 
@@ -408,8 +412,9 @@ def shrink_all(build, sc, items, tagname, rounds=14):
         batch, owner = [], []
         for i in active:
             for c in sorted(shrink_candidates(*items[i]["cur"]), key=weight)[:120]:
-                batch.append(c)
-                owner.append(i)
+                for variant in range(PRINTINGS):      # the spelling is part of a case: try several per candidate
+                    batch.append((c[0], c[1], variant))
+                    owner.append(i)
         if not batch:
             break
         evs = run_impl(build, sc, "shr_%s_%d" % (tagname, k), batch, 1)
@@ -427,7 +432,7 @@ def shrink_all(build, sc, items, tagname, rounds=14):
     # a case that could not be made smaller at all has not been re-run yet: do it now (flakiness guard)
     todo = [it for it in items if not it.get("confirmed")]
     if todo:
-        evs = run_impl(build, sc, "confirm_%s" % tagname, [it["cur"] for it in todo], 1)
+        evs = run_impl(build, sc, "confirm_%s" % tagname, [(it["cur"][0], it["cur"][1], it["last"]["datum"]) for it in todo], 1)
         rej, _ = validate_soft(sc, "confirm_%s" % tagname, evs)
         for it, e in zip(todo, evs):
             if e["id"] not in rej:
@@ -451,24 +456,37 @@ def validate_soft(sc, label, evs):
     return rej, r
 
 
+def akind(t):
+    """atoms as they appear in keys: the three ways of writing a finite positive class are one kind"""
+    return "cls" if t[0] in ("lit", "set", "range") else t[0]
+
+
 def shape_match(p, t):
-    """does the shrunk pattern p occur at the root of t?  eps in the pattern = anything; or/seq are compared
-       flattened (the pattern's operands must match an ordered selection of the node's operands)"""
+    """does the minimised pattern p occur at the root of t?  eps in the pattern = anything; seq is compared
+       flattened (pattern operands = an ordered selection of the node's operands), or flattened and unordered"""
     if p[0] == "eps":
         return True
+    if not children(p):
+        return not children(t) and akind(p) == akind(t)
     if p[0] != t[0]:
         return False
     if p[0] == "rep" and (p[1], p[2]) != (t[1], t[2]):
         return False
-    if p[0] in ("or", "seq"):
-        pp, tt = flat(p, p[0]), flat(t, t[0])
+    if p[0] == "seq":
+        pp, tt = flat(p, "seq"), flat(t, "seq")
         j = 0
         for x in tt:
             if j < len(pp) and shape_match(pp[j], x):
                 j += 1
         return j == len(pp)
-    if p[0] in ("set", "nset", "lit", "range"):
-        return True
+    if p[0] == "or":
+        pp, tt = flat(p, "or"), flat(t, "or")
+
+        def assign(k, used):
+            if k == len(pp):
+                return True
+            return any(i not in used and shape_match(pp[k], tt[i]) and assign(k + 1, used | {i}) for i in range(len(tt)))
+        return assign(0, frozenset())
     return all(shape_match(p[i], t[i]) for i in children(p))
 
 
@@ -478,13 +496,15 @@ def contains(p, t):
 
 def signature(t):
     k = t[0]
-    if k in ("seq", "or"):
-        return "%s(%s,%s)" % (k, signature(t[1]), signature(t[2]))
+    if k == "seq":
+        return "seq(%s,%s)" % (signature(t[1]), signature(t[2]))
+    if k == "or":
+        return "or(%s)" % ",".join(sorted(signature(x) for x in flat(t, "or")))
     if k in ("star", "plus", "opt", "sub", "nocase"):
         return "%s(%s)" % (k, signature(t[1]))
     if k == "rep":
         return "rep%d_%s(%s)" % (t[1], "inf" if t[2] == -1 else t[2], signature(t[3]))
-    return k
+    return akind(t)
 
 
 def report_rejections(chk, build, sc, evs, rej, per_stage=16, stages=3):
@@ -519,8 +539,13 @@ def report_rejections(chk, build, sc, evs, rej, per_stage=16, stages=3):
                 break
         items = [{"cur": (evs[i]["sre"], evs[i]["s"]), "cls": fclass(rej[i]), "last": dict(evs[i], clauses=rej[i])} for i in chosen]
         shrink_all(build, sc, items, "s%d" % stage)
-        for i, it in zip(chosen, items):
+        # most general minimal forms first; a minimal form that contains an earlier one joins its key
+        for i, it in sorted(zip(chosen, items), key=lambda x: weight((x[1]["last"]["sre"], x[1]["last"]["s"]))):
             key = "%s:%s" % (it["cls"], signature(it["last"]["sre"]))
+            for k2, f2 in found.items():
+                if f2[0] == it["cls"] and contains(f2[1]["sre"], it["last"]["sre"]):
+                    key = k2
+                    break
             f = found.setdefault(key, [it["cls"], it["last"], [], set()])
             f[2].append(i)
             f[3].add(json.dumps(evs[i]["sre"]))          # the same SRE with other subjects belongs to the same key
@@ -641,6 +666,7 @@ def run():
                 ("exh", "anchor", [97, NL], 3 if T else 4, 2 if T else 1, "anchor"),
                 ("exh", "case", [97, 65, 98], 2 if T else 3, 2 if T else 1, "case"),
                 ("exh", "ab2", [97, 98], 3 if T else 1, 2, "full"),
+                ("exh", "splice", [97, 65], 2 if T else 1, 4, "case"),
                 ("sim", "ascii", ASCII4, 2000 if T else 220, 40, S),
                 ("sim", "ascii2", ASCII4, 2000 if T else 150, 25, S + 1),
                 ("sim", "case", CASE4, 1500 if T else 150, 35, S + 2),
@@ -654,7 +680,7 @@ def run():
         fam = {}
         for res in vlib.parallel(phase_a, jobs, jobs=len(jobs)):
             if res[0] == "exh":
-                fam["exh-" + res[1]] = [tuple(c) for c in res[2]]
+                fam["exh-" + res[1]] = [tuple(c) + ((1,) if res[1] == "splice" else ()) for c in res[2]]
                 chk.cov.setdefault("generator_states", {})["exh-" + res[1]] = res[3].distinct
             else:
                 rng = __import__("random").Random(S * 7919 + len(fam))
@@ -711,7 +737,8 @@ def run():
             chk.cov["rejected_results"] = report_rejections(chk, build, sc, evs, rej)
             phase["minimise-rejections"] = round(time.time() - t0, 1)
         chk.cov["rule"] = ("a case = one (SRE, subject) pair: all SREs of depth<=1 over {a,b,c} x all subjects up to length 4 (5 thorough), anchor and case-folding "
-                           "families likewise over {a,newline} / {a,A,b}, depth-2 SREs over {a,b} (seeded sample in quick), all enumerated by TLC (RegexGen), plus "
+                           "families likewise over {a,newline} / {a,A,b}, depth-2 SREs over {a,b} (seeded sample), (seq|or)(unary(seq(atom,atom)),atom) over {a,A} printed as (op a b), "
+                           "all enumerated by TLC (RegexGen), plus "
                            "TLC-simulated SREs up to depth 5 (RegexSim) with subjects up to length 12 over {a,b,c,newline}, {a,A,b,B} and a Unicode alphabet; "
                            "distinct_nontrivial = distinct accepted pairs whose SRE has an operator and for which the implementation reported a search match "
                            "(so that span and submatch clauses were exercised)")
@@ -737,7 +764,7 @@ def replay(path):
     print("rejected clauses at the time:", m.get("clauses"))
     with vlib.Scratch("c20r") as sc:
         build = vlib.build_repo(sc.sub("build"))
-        evs = run_impl(build, sc, "replay", [(m["sre"], m["s"])], 1)
+        evs = run_impl(build, sc, "replay", [(m["sre"], m["s"], m["datum"])], 1)
         rej, r = validate_soft(sc, "replay", evs)
         e = evs[0]
         print("now      : err=%s regexp-matches?=%s regexp-matches=%s regexp-search=%s  (datum %s)"
